@@ -13,10 +13,7 @@ CLAIMED = {
    technique='Lean 4 theorem by induction over the scan loop + decide over regenerated rule table + differential correspondence',
    design='§7 C01'),
  'C05': dict(
-   text='Token-level theorems (all token lists): plain_script_split (+_last, +_wstail): any script of units body;trail whose bodies are quiet (decidable: no ; at level<=0, no GO, '
-        'level ends <=0) is split into exactly those units; split_value_irrelevant: streams agreeing on types and on the values of keyword/punctuation tokens have identical statement '
-        'extents (so the contents of literals, quoted names, comments are irrelevant). The splitter model is tied by S-SPLIT and by the exhaustive _change_splitlevel table S-CSL; every '
-        'generated grammar statement is checked through the driver to satisfy the theorem hypotheses (same Lean definitions). Oracle on the real code: k statements, extents, region replacement.',
+   text='Token-level theorems (all token lists): plain_script_split (+_last, +_wstail): any script of units body;trail whose bodies are quiet (decidable) is split into exactly those units; split_value_irrelevant: streams agreeing on types and on the values of keyword/punctuation tokens have identical statement extents. Character level (all nine opaque region kinds: comments, hints, four quote styles, dollar quoting): region_in_one_statement — the region is one token inside one statement; semicolon_in_region_does_not_split — replacing the region body by any other body of the same kind leaves the statement partition unchanged (explicit hypothesis: the tokens before the region agree; vacuous for a leading region). Tie: S-SPLIT, S-CSL (exhaustive), DOMAIN(quiet); oracle on the real code: k statements, extents, region replacement.',
    note='Trusted: Lean kernel; hand-written splitter model (tied by S-SPLIT sampled + S-CSL exhaustive); lexical bridge from grammar text to token classes is sampled (C14 covers opaque regions). Known finding KF-C05-1 (END inside parentheses).',
    technique='Lean 4 theorems by induction over the token stream (state invariant, abstraction to shapes) + exhaustive table diff + differential correspondence',
    design='§7 C05'),
@@ -28,14 +25,12 @@ CLAIMED = {
    technique='Lean 4 theorem by mutual structural induction over a block grammar + exhaustive table diff + differential correspondence',
    design='§7 C17'),
  'C04': dict(
-   text='Theorems (all texts): statements_partition_text — the flat statements that both split() and parse() start from partition the input in order, nothing lost or duplicated, only a whitespace-typed tail dropped; pieces_nonempty — every piece split() returns is non-empty after strip() (every non-whitespace-typed token starts with a non-space character: first-character analysis of the regenerated rule table); lexer+splitter never fail. Oracle on the real code: split() == stripped str() of parse() statements, increasing positions with whitespace gaps, re-split of every piece; splitter state machine tied by S-CSL (exhaustive table), S-SPLIT (random + bounded-exhaustive over reduced alphabets).',
-   note='Re-split clause: known finding KF-C04-1 (context-sensitive lexing), classified by the lex_stable predicate; not a theorem on lex-stable pieces yet.',
+   text='Theorems (all texts): statements_partition_text — the flat statements that both split() and parse() start from partition the input in order, nothing lost or duplicated, only a whitespace-typed tail dropped; pieces_nonempty; split_is_stripped_parse (C02) — whenever both return, split(text) == [str(st).strip() for st in parse(text)]; resplit_tokens — splitting the tokens of a returned statement again returns it alone (every configuration); resplit_text_any — split(piece) == [piece] under the decidable lexical hypothesis LexStable/LexStableC (the piece lexes in isolation to its tokens in context). Tie: S-SPLIT (sampled + bounded-exhaustive over reduced alphabets), S-CSL (whole transition table), DOMAIN(lexstable) (the Lean predicate evaluated per statement, prediction compared with the real code).',
+   note='Pieces that are not LexStable (context-sensitive lexemes: look-behind at the first character, strip() removing the blank of "# ") are known finding KF-C04-1, classified by the Lean predicate.',
    technique='Lean 4 theorems (splitter fold invariant composed with lexer losslessness; first-character analysis) + exhaustive/bounded-exhaustive correspondence + oracle',
    design='§7 C04'),
  'C15': dict(
-   text='Theorems recursion_error_never_escapes / other_errors_unchanged over the try-scope extracted from FilterStack.run (every stage inside the try), entry-point shape facts, and '
-        'later_call_gets_initialised_lexer (= C20.init_safe: no failed call can leave a published uninitialised lexer, all thread counts/schedules/raising steps). Runtime side (frame accounting, C stack) '
-        'is observed by subprocess runs: constructs x depths x recursion limits x entry points x options, each followed by an ordinary call.',
+   text='Theorems: recursion_error_never_escapes / other_errors_unchanged over the try-scope extracted from FilterStack.run; parse_fails_only_by_depth — lexing and splitting always return and grouping can fail with RecursionError only, so parse either returns a tree (satisfying C02) or raises SQLParseError; enough_depth_always_succeeds; later_call_gets_initialised_lexer (= C20.init_safe). Runtime side (frame accounting, C stack) observed by subprocess runs: constructs x depths x recursion limits x entry points x options, each followed by an ordinary call; S-TREE on the nesting constructs.',
    note='Partial by nature: CPython frame accounting and interpreter aborts cannot be exhibited by the model; only the try-scope and the singleton protocol are modelled. One genuine defect repaired (fix: 44e77d8).',
    technique='Lean 4 theorems over control-flow IR extracted from the source + invariant over all interleavings; subprocess fault exploration for the runtime part',
    design='§7 C15'),
@@ -67,43 +62,36 @@ CLAIMED = {
    technique='Lean 4 theorems (loop invariants per pass, lifted through the recursion scheme) + differential correspondence on full trees',
    design='§7 C02'),
  'C03': dict(
-   text='Theorems: leaves_are_the_lexer_tokens (LeafRel: same values/order, types equal unless re-typed to Operator), groups_nonempty (no empty group after all 25 passes), navigation specs '
-        '(get_token_at_offset for every offset, token_next/prev/first/index). Parent pointers, identity and cached values are properties of the real objects: checked by the oracle on every node of every sampled tree; '
-        'within/has_ancestor/is_child_of compared with the path-based model by S-ACC.',
-   note='Partial: bookkeeping clause (parent/identity/cached value) is exploration on the real objects, not a theorem (the pure tree has no pointers).',
+   text='Theorems over the pure model: leaves_are_the_lexer_tokens(_strict) and only_wildcard_is_retyped (leaf by leaf same value; where the type differs the lexer token was Wildcard and the leaf is Operator; all 25 passes), groups_nonempty, navigation specs (get_token_at_offset for every offset, token_next/prev/first/index). Theorems over a HEAP model of the mutable side (SqlModel/Bookkeeping.lean: TokenList.__init__ and group_tokens with object identity, parent references and cached values): bookkeeping_every_history — the Statement built by the splitter, regrouped by ANY script of group_tokens calls (any receiver, class, non-empty slice, extend on/off; raising calls change nothing) stays a well-formed heap: every child names its container as parent, no object occurs twice, the graph is acyclic, no group is empty, every cached value equals str() of the group. Tie: S-TREE/S-ACC (pure model), S-HEAP (random call scripts on real sqlparse objects, whole heap compared), a syntactic confinement check that grouping.py mutates the tree only through group_tokens, and the oracle on every node of every sampled real tree.',
+   note='Ghost rank/text functions witness acyclicity and the text equations; recursion budget of str() must exceed number of calls + 1. within/has_ancestor/is_child_of are compared with the path-based model by S-ACC.',
    technique='Lean 4 theorems over the grouping and accessor models + oracle over real object graphs + differential correspondence',
    design='§7 C03'),
  'C09': dict(
-   text='Theorems: the real loop of _group_matching computes exactly the textbook frame-stack matcher for every class/pattern/token list (balanced or not) and never raises; created groups start with their opener and end with their closer; all 19 later passes neither create nor dissolve a group of the six classes nor change its leaves (only align_comments may append following siblings); no group empty. M_OPEN/M_CLOSE and pass order regenerated from the source. Oracle: spans vs an independent stack matcher on biased unbalanced inputs; S-TREE.',
-   note='That align_comments appends exactly whitespace + one Comment group is oracle-checked.',
+   text='Theorems: the real loop of _group_matching computes exactly the textbook frame-stack matcher for every class/pattern/token list (balanced or not) and never raises; created groups start with their opener and end with their closer; brackets_final_total — for every flat statement the bracket/block groups of the final tree are those after the six matching passes: same classes in the same order, same leaves (up to Wildcard→Operator), followed only by comment/whitespace leaves (what align_comments attaches: one Comment group after whitespace); delimiters_kept_leafwise under the decidable DelimSafe. Tie: S-TREE, S-GROUP (pass by pass); oracle: independent reference matcher on the real trees.',
+   note='The property is read on the leaf sequence of a node: a later pass may wrap the delimiter of the enclosing group into a child ( "(x as)" ), never move it or put a non-comment leaf behind it.',
    technique='Lean 4 refinement proof (loop invariant relating index arithmetic to a frame stack) + rewrite-step invariant over the later passes + independent reference matcher as oracle',
    design='§7 C09'),
  'C07': dict(
-   text='Theorems: lexSplit_total/split_total (lexer+splitter never fail), grouping_total (the 25 passes return or fail with RecursionError only — every index in range), validate_total over the regenerated option table, validate_before_format, accessor totality facts, format_error_kinds (RecursionError/StopIteration never leave format). Oracle: option pool x texts; parse/split/format with random valid option sets on junk, deep nesting and grammar inputs; every accessor on every node.',
-   note='Partial: absence of IndexError/… inside the statement filters is explored (two known findings KF-C07-1/2 come from there). Three genuine defects repaired (618d66d, 80aaf5c, 0de99dc).',
+   text='Theorems: lexSplit_total/split_total (lexer+splitter never fail), grouping_total (the 25 passes return or fail with RecursionError only), validate_total over the regenerated option table, validate_before_format, accessor totality, and totality of every statement filter on a decidable domain (FilterSafe.*): strip_comments and use_space_around_operators on every tree, strip_whitespace / reindent / reindent_aligned on their domains, a whole filter stack stagewise (statement_filter_stack_total). Escaping exceptions on the real code are classified through the driver by the Lean predicate of the raising stage (DOMAIN(filtersafe)). Oracle: arbitrary text x option sets x all accessors on every node.',
+   note='Partial: that grouped trees of arbitrary junk lie inside FilterSafe.reindent/aligned is explored. Five genuine defects repaired (618d66d, 80aaf5c, 0de99dc, 4e9e704, e93eb2e).',
    technique='Lean 4 theorems (index-range invariants per pass, interpreter of the regenerated option table, accessor totality) + exploration of exceptions on the real code',
    design='§7 C07'),
  'C11': dict(
-   text='Oracle-centred: each grammar script is re-spelled (every inter-token whitespace run and every inner whitespace of multi-word keywords replaced, keywords re-cased) and statement count, get_type and tree shape compared; '
-        'S-LEX/S-SPLIT/S-TREE on both spellings tie the model. Theorems available: split_value_irrelevant (C05) and the kwNorm normalisation facts; the per-pass simulation theorems are not proved.',
-   note='Partial: invariance theorems for grouping passes not proved. Two genuine defects repaired (fix: 770a1b4 keyword normalized, c10144b AS test).',
-   technique='metamorphic exploration on the real code + differential correspondence; Lean theorems only for the splitter/normalisation part',
-   design='§7 C11'),
+   text='Theorems: split_view_invariant (the splitter sees tokens only through a view invariant under whitespace and keyword-case re-spelling); respell_group — all 25 grouping passes commute with every admissible re-spelling of the leaves (keyword letter case, whitespace inside multi-word keywords, values of whitespace tokens): same classes, shape, leaf types and errors, for every input and fuel. Oracle (metamorphic, real code): each grammar script re-spelled (whitespace runs, inner whitespace of multi-word keywords, keyword case): statement count, get_type and tree shape compared; DOMAIN(view), S-TREE on both spellings.',
+   note='Partial: invariance under changing the NUMBER/TYPE of whitespace tokens (one token per whitespace character) is metamorphic exploration, not a theorem yet. Three genuine defects repaired (770a1b4, c10144b, 3d621f2).',
+   technique='Lean 4 theorems (view abstraction of the splitter; leaf-wise re-spelling commutation lifted through all passes) + metamorphic exploration on the real code + differential correspondence',   design='§7 C11'),
  'C12': dict(
-   text='Theorems over every Identifier/Function of canonical shape [qual .]? name (ws+ [AS ws+]? alias)? with arbitrary names/quoting/whitespace: get_real_name/get_parent_name/get_alias/get_name/has_alias return the written parts with quotes removed; '
-        'remove_quotes lemmas; name accessors never raise on trees with non-empty nodes. That grouping builds this shape in each syntactic context is checked by the oracle (planted references in six contexts) and S-TREE/S-ACC.',
-   note='Partial: identifier_shape in contexts is sampled. Accessor model tied by S-ACC (0 mismatches on 166k statements in validation).',
-   technique='Lean 4 theorems over the accessor model + oracle with planted references + differential correspondence',
-   design='§7 C12'),
+   text='Theorems: accessors on every Identifier of canonical shape return the written parts with quotes removed; respell_group_names — grouping commutes with re-spelling the VALUES of Name/String.Symbol leaves, keyword case and whitespace values (all 25 passes); accessors_of_checked_skeleton — from one skeleton whose check evaluates to true to every admissible spelling; the table of 19 contexts x 30 reference forms (570 statement skeletons: select/FROM lists up to 3 items, JOIN, UPDATE, INSERT, subqueries; plain/quoted parts; AS/implicit alias) is decided by the kernel through the whole model pipeline (thorough tier, SqlPropsSlow.C12Table: identifier_accessors_in_context) and evaluated by the compiled driver in the quick tier. DOMAIN(skeleton): every skeleton and random admissible renamings of it on the real code; oracle with planted references; S-TREE/S-ACC.',
+   note='Enumerated, not universal: contexts, list length <= 3, one whitespace token between lexemes. Names that are contiguous pieces of CREATE/TABLE/AS are excluded by the admissibility hypothesis (group_functions reads child texts).',
+   technique='Lean 4 theorems: parametricity of grouping in identifier spellings + kernel-decided finite table + accessor theorems; oracle with planted references + differential correspondence',   design='§7 C12'),
  'C13': dict(
    text='Theorems: where_extent (first WHERE heads a group up to the first later closing keyword of the regenerated Where.M_CLOSE, else to the last groupable child; every iteration likewise; none left ungrouped), get_identifiers_spec, get_cases_spec/total, get_parameters/Comparison error characterisations; decide obligations that Where.M_OPEN/M_CLOSE are the lists the property names. Oracle: queries built from known parts (WHERE x every closer x several WHEREs per level x nesting, lists, calls, CASE, comparisons, typed literals).',
    note='Partial: that lists/calls/CASE/comparisons are grouped as the accessor theorems assume is sampled. One defect repaired (8630182); known findings KF-C13-1, KF-C13-2.',
    technique='Lean 4 theorems over the grouping and accessor models + decide over regenerated class tables + oracle with constructed queries',
    design='§7 C13'),
  'C18': dict(
-   text='Theorems: get_type on any tree with a leading DML/DDL keyword (after whitespace/comments) is its normalised spelling whatever follows; UNKNOWN for empty statements; CTE walk fuel irrelevance; kwNorm collapses case and inner whitespace. '
-        'Oracle: grammar statements x comment/whitespace prefixes x casings x continuations; S-ACC.',
-   note='Partial: survival of the leading keyword through grouping and the CTE clause are sampled. Known finding KF-C18-1 (keyword directly before ( or .).',
+   text='Theorems: get_type on any tree with a leading DML/DDL keyword is its normalised spelling; leading_keyword_survives_grouping + get_type_after_grouping — for every flat statement whose first non-whitespace/comment token is a DML/DDL keyword (decidable LeadHyp: next token is not :: / time-zone cast, no := in the statement; each exclusion witnessed on the real code) the keyword is still the first significant child after all 25 passes and get_type() is its normalised value, whatever follows; UNKNOWN for empty statements; CTE walk fuel irrelevance. DOMAIN(leadhyp): hypothesis evaluated by the driver per generated statement and the prediction compared with the real get_type(); oracle; S-ACC.',
+   note='Partial: the CTE clause (WITH … <DML>) is sampled. Known finding KF-C18-1 (keyword directly before ( or .).',
    technique='Lean 4 theorems over the accessor model + oracle + differential correspondence',
    design='§7 C18'),
  'C06': dict(
@@ -117,13 +105,13 @@ CLAIMED = {
    technique='Lean 4 theorems over the token-filter and strip-comments models + oracle by re-lexing + differential correspondence',
    design='§7 C08'),
  'C10': dict(
-   text='Theorems (tree level): strip_whitespace normal form (every list a fixed point of the default pass; no whitespace after ( / before ) in a parenthesis), use_space_around_operators normal form (whitespace sibling on both sides of every operator) and fixed point (after repair f036566), no output line ends in a blank. Oracle on the real code: the text-level normal forms incl. reindent (clause keywords at line start) and both fixed points; S-FMT.',
-   note='Partial: reindent clause and text-level reading are oracle-checked. One defect repaired (f036566); known findings KF-C10-2..4.',
+   text='Theorems (tree level): strip_whitespace normal form (every list a fixed point of the default pass; no whitespace after ( / before ) in a parenthesis), IdentifierList fixed point iff no comma is preceded by two whitespace tokens (theorem + decided counterexample = KF-C10-3), use_space_around_operators normal form and fixed point, no output line ends in a blank (serializer), and the reindent clause: in every list _process_default handles and in the statement list every selected clause keyword is directly preceded by the nl() token with the exact indentation (hypothesis noBreakBefore). Tie: S-TREEF, S-FMT; oracle on the real code for the text-level reading incl. multi-word keywords with unusual inner whitespace.',
+   note='Partial: lift of the reindent clause through _process_identifierlist/_case/_parenthesis and through the serializer regex is oracle-checked. One defect repaired (f036566); known findings KF-C10-2..5.',
    technique='Lean 4 theorems over the filter models + oracle on the real code + differential correspondence',
    design='§7 C10'),
  'C14': dict(
    text='Theorems (all subject strings, positions, left contexts, bodies): block/line comments and hints, single-/double-quoted, backtick/acute, dollar-quoted regions are one token of their type at the opener, and lex_emits_region lifts this to the output of the whole scan at every scan boundary; word_rule_munch, keyword_case_invariant; dict_word: 790 of 809 dictionary entries are certified universally (any left context, any delimiter) to be the keyword-rule token, the 19 others are evaluated on a concrete context. Rule shapes are pinned to the regenerated table by definitional equations. Exhaustive enumeration of every dictionary word x casings x contexts on the real lexer with an independent first-dictionary oracle; S-LEX.',
-   note='Rule indexes are fixed in the proofs: inserting a rule in front breaks the obligations without a failing input (reported as such). Known finding KF-C14-1.',
+   note='Table obligations are index-free (rules are found by content), so unrelated rule insertions do not disturb them. Known finding KF-C14-1 (dead dictionary entries) is also a theorem (dead_dictionary_entries).',
    technique='Lean 4 theorems from rule shapes (first-character analysis, closed forms of lazy/greedy stars, window over-approximation for dictionary words) + exhaustive table enumeration + differential correspondence',
    design='§7 C14'),
 }
